@@ -58,6 +58,35 @@ def gen_cases(rng, tier, info):
         h.reopen(); h.flush(); h.raw()
         G.REP = None
         cases.append(Case("wf-%d%s" % (j, "-cp%d" % sb if sb else ""), h.cmds))
+    # packages WITHOUT a _Validation table (foreign files): dropping a table must still remove its _Tables / _Columns rows
+    # and release their strings
+    import msienc
+    from props import c02
+    for j in range(6 if tier == "quick" else 120):
+        tables = {"Keep": ([mk("K", "i16", pk=True), mk("V", ("str", 0), null=True)], [[1, "kept"], [2, "shared"]]),
+                  "Gone": ([mk("Id", "i16", pk=True), mk("Name", ("str", 0), null=True)], [[1, "Gizmo"], [2, "shared"]])}
+        opts = dict(long_refs=(j % 2 == 1), holes=0, dups=0, overcount=0, stale=0, validation=False, shuffle_catalog=False,
+                    odd_int_sizes=False, layout="plain")
+        clsid, entries, expected = msienc.encode_db(rng, j % 3, 65001, tables, [(2, 30, "t")], {}, **opts)
+        db = c02.start_db(j % 3, 65001, tables, {}, opts, expected)
+        h = G.History(rng, j % 3, observe=None)
+        h.db = db.clone()
+        h.cmds = [msienc.enc_open_raw(clsid, entries)]
+        h.flush(); h.raw()
+        if j % 3 == 1:
+            h.add_table("New", [mk("K", "i16", pk=True), mk("S", ("str", 0), null=True)])
+            h.insert("New", rows=[[1, "fresh"], [2, "Gizmo"]])
+            h.flush(); h.raw()
+        h.drop_table("Gone" if j % 3 != 2 else "Keep")
+        h.flush(); h.raw()
+        if j % 3 == 1:
+            h.drop_table("New")
+            h.flush(); h.raw()
+        h.reopen()
+        h.flush(); h.raw()
+        c = Case("nv-%d" % j, h.cmds)
+        c.start_db = db
+        cases.append(c)
     info.update({"histories": n})
     return cases
 
@@ -69,7 +98,7 @@ def nontrivial(case):
 def oracle(ctx):
     bad = []
     for c, outs in zip(ctx.cases, ctx.impl_out):
-        for f in G.walk(c.cmds, outs, decode=decode):
+        for f in G.walk(c.cmds, outs, decode=decode, start_db=getattr(c, "start_db", None)):
             if f["kind"] in KINDS:
                 bad.append(f)
                 break
